@@ -67,6 +67,7 @@ type vfC11Globals struct {
 	relayKey crypto.PrivKey
 	relayID  peer.ID
 	otherID  peer.ID
+	other2ID peer.ID
 	peers    map[string]peer.ID
 	pnames   map[peer.ID]string
 	addrs    map[string]ma.Multiaddr
@@ -97,6 +98,9 @@ func vfC11Init() error {
 	if _, g.otherID, err = mk(); err != nil {
 		return err
 	}
+	if _, g.other2ID, err = mk(); err != nil {
+		return err
+	}
 	for i := 1; i <= 40; i++ {
 		_, id, err := mk()
 		if err != nil {
@@ -111,7 +115,8 @@ func vfC11Init() error {
 		"v6a": "/ip6/2001:4860:4860::8888/tcp/4001", "v6b": "/ip6/2001:4860:4860::8844/tcp/4001",
 		"v6c": "/ip6/2606:4700:4700::1111/tcp/4001", "v6n": "/ip6/fd00::1/tcp/4001",
 		"noip":  "/dns4/relay-client.example/tcp/4001",
-		"relay": "/ip4/203.0.113.9/tcp/4001/p2p/" + g.otherID.String() + "/p2p-circuit",
+		"relay":  "/ip4/203.0.113.9/tcp/4001/p2p/" + g.otherID.String() + "/p2p-circuit",
+		"relayu": "/ip4/203.0.113.10/tcp/4001/p2p/" + g.other2ID.String() + "/p2p-circuit", // a front relay without limits
 	} {
 		a, err := ma.NewMultiaddr(s)
 		if err != nil {
@@ -141,7 +146,7 @@ func vfC11Init() error {
 
 type vfC11Cfg struct {
 	Name      string
-	Links     map[string][]string
+	Links     map[string][]any // link -> [peer, address name, Stat().Limited]
 	DenyRes   []string
 	DenyConn  [][]string
 	MaxRes    int
@@ -164,7 +169,7 @@ func vfC11CfgOf(hdr map[string]any) (*vfC11Cfg, error) {
 		Name   string         `json:"name"`
 		Consts map[string]any `json:"consts"`
 		Conf   struct {
-			Links       map[string][]string `json:"links"`
+			Links       map[string][]any    `json:"links"`
 			DenyReserve []string            `json:"denyReserve"`
 			DenyConnect [][]string          `json:"denyConnect"`
 		} `json:"conf"`
@@ -312,12 +317,16 @@ func vfC11NewSys(cfg *vfC11Cfg, out *vfh.Result) (*vfC11Sys, error) {
 	s := &vfC11Sys{cfg: cfg, w: w, cm: cm, atts: map[int]*vfC11Att{}, res: map[string]*vfC11Res{}, ended: map[string]string{}, out: out, diverged: -1}
 	pn := map[string]bool{}
 	for l, pa := range cfg.Links {
-		if len(pa) != 2 || g.peers[pa[0]] == "" || g.addrs[pa[1]] == nil {
+		pn0, _ := pa[0].(string)
+		an, _ := pa[1].(string)
+		lim, okL := pa[2].(bool)
+		if len(pa) != 3 || !okL || g.peers[pn0] == "" || g.addrs[an] == nil {
 			return nil, fmt.Errorf("bad link %s %v", l, pa)
 		}
-		w.conns[l] = &vfC11Conn{name: l, pname: pa[0], addrName: pa[1], pid: g.peers[pa[0]], addr: g.addrs[pa[1]],
-			limited: pa[1] == "relay", local: g.relayID}
-		pn[pa[0]] = true
+		_, circ := g.addrs[an].ValueForProtocol(ma.P_CIRCUIT)
+		w.conns[l] = &vfC11Conn{name: l, pname: pn0, addrName: an, pid: g.peers[pn0], addr: g.addrs[an],
+			viaRelay: circ == nil, limited: lim, local: g.relayID}
+		pn[pn0] = true
 	}
 	w.order = vfC11SortedKeys(w.conns)
 	s.pnames = vfC11SortedKeys(pn)
@@ -576,7 +585,7 @@ func (s *vfC11Sys) linkDown(l string) {
 		n.Disconnected(s.host.net, c)
 	}
 	synctest.Wait()
-	if len(s.w.directUp(c.pid)) == 0 {
+	if len(s.w.unlimUp(c.pid)) == 0 { // Connectedness(p) != Connected: the peer "disconnected" as the host sees it
 		if _, ok := s.res[c.pname]; ok {
 			delete(s.res, c.pname)
 			s.ended[c.pname] = "disconnect"
@@ -651,8 +660,8 @@ func (s *vfC11Sys) doReserve(op vfh.Op) {
 		return
 	}
 	// L1: the clauses on a granted reservation
-	if c.limited {
-		s.mismatch("reservation-granted-over-relayed-connection", "RESERVE over a /p2p-circuit connection was granted", "refused", st)
+	if c.viaRelay { // keyed on the address alone: Stat().Limited does not matter
+		s.mismatch("reservation-granted-over-relayed-connection", fmt.Sprintf("RESERVE over a /p2p-circuit connection (Stat().Limited=%v) was granted", c.limited), "refused", st)
 	}
 	if s.w.denyRes[l] {
 		s.mismatch("reservation-granted-against-acl", "RESERVE the ACL refuses was granted", "refused", st)
@@ -779,7 +788,11 @@ func (s *vfC11Sys) doConnect(op vfh.Op) {
 	s.purge()
 	aliveSrc, aliveDst := s.aliveCount(c.pname), s.aliveCount(d)
 	held := s.res[d]
-	dstDirect := len(s.w.directUp(dpid)) > 0
+	dstDirect := len(s.w.notViaRelayUp(dpid)) > 0 // keyed on the address alone
+	dstRelayedUnlimited := false
+	for _, k := range s.w.unlimUp(dpid) {
+		dstRelayedUnlimited = dstRelayedUnlimited || s.w.conns[k].viaRelay
+	}
 	denied := s.w.denyConn[l+">"+d]
 	nsBefore := len(s.w.nsCalls)
 	mem0 := s.svcStat().Memory
@@ -843,11 +856,15 @@ func (s *vfC11Sys) doConnect(op vfh.Op) {
 			}
 			s.mismatch("connect-without-reservation/"+why, "the relay went on to connect to a destination that holds no reservation ("+why+")", "NO_RESERVATION", st)
 		}
-		if c.limited {
-			s.mismatch("connect-relayed-source", "the relay went on to connect a source that came through another relay", "PERMISSION_DENIED", st)
+		if c.viaRelay {
+			s.mismatch("connect-relayed-source", fmt.Sprintf("the relay went on to connect a source that came through another relay (Stat().Limited=%v)", c.limited), "PERMISSION_DENIED", st)
 		}
 		if !dstDirect {
-			s.mismatch("connect-relayed-destination", "the relay went on to connect to a destination without a direct connection", "refused", st)
+			if dstRelayedUnlimited {
+				s.mismatch("connect-destination-over-unlimited-relay", "the relay went on to connect to a destination it reaches only through another relay (a relayed connection not flagged Limited keeps Connectedness at Connected, so the reservation outlived the direct connection, and carries the stop stream)", "refused", st)
+			} else {
+				s.mismatch("connect-relayed-destination", "the relay went on to connect to a destination without a direct connection", "refused", st)
+			}
 		}
 		if denied {
 			s.mismatch("connect-against-acl", "the relay went on to connect although the ACL refuses", "PERMISSION_DENIED", st)
